@@ -12,39 +12,39 @@ import (
 
 // GenCfg steers the history generator. Weights are relative.
 type GenCfg struct {
-	MinOps, MaxOps int
-	MaxDepths      []int // MaxBranchDepth choices
-	PruneDepths    []int // hook prune depths (0 = production depth only)
-	BaseLens       []int // straight chain built first
-	WClean         int
-	WSave          int
-	WReload        int
-	WMark          int
-	WUnmark        int
-	WSub           int
-	WSubmit        int
-	Twin           bool // reload keeps both instances
+	MinOps, MaxOps    int
+	MaxDepths         []int // MaxBranchDepth choices
+	PruneDepths       []int // hook prune depths (0 = production depth only)
+	BaseLens          []int // straight chain built first
+	WClean            int
+	WSave             int
+	WReload           int
+	WMark             int
+	WUnmark           int
+	WSub              int
+	WSubmit           int
+	Twin              bool // reload keeps both instances
 	SaveAroundRefusal bool
-	MerkleBlocks   bool // headers carry real merkle roots of generated txid lists (C18)
-	EarlySave      bool // save once right after the base chain (C12)
-	PeerReply      bool // C19: submit what a conformant peer would reply to our locator
+	MerkleBlocks      bool // headers carry real merkle roots of generated txid lists (C18)
+	EarlySave         bool // save once right after the base chain (C12)
+	PeerReply         bool // C19: submit what a conformant peer would reply to our locator
 }
 
 var bitsChoices = []uint32{0x1d00ffff, 0x1d00ffff, 0x1d00ffff, 0x1c7fffff, 0x1d00fffe, 0x1c00ffff, 0x1d007fff}
 
 type genState struct {
-	rng   *rand.Rand
-	e     *Engine
-	gc    GenCfg
-	lanes []Hash // tips being raced against each other
-	refused []*wire.BlockHeader
-	salt  uint32
-	blocks map[Hash][]Hash // header hash → txids (MerkleBlocks)
-	forks int
+	rng       *rand.Rand
+	e         *Engine
+	gc        GenCfg
+	lanes     []Hash // tips being raced against each other
+	refused   []*wire.BlockHeader
+	salt      uint32
+	blocks    map[Hash][]Hash // header hash → txids (MerkleBlocks)
+	forks     int
 	nonAccept int
-	reorgs int
-	shape strings.Builder
-	pruneD int
+	reorgs    int
+	shape     strings.Builder
+	pruneD    int
 }
 
 func (g *genState) mkHeader(parent *Node, bits uint32) *wire.BlockHeader {
